@@ -1466,7 +1466,7 @@ class MSgate(Channel):
 
         s = np.sqrt(sf.hbar / 2)
         ancillae_val = backend.mb_squeeze_single_shot(*reg, r, phi, r_anc, eta_anc)
-        return ancillae_val / s
+        return ancillae_val * s
 
 
 class PassiveChannel(Channel):
